@@ -30,7 +30,10 @@ def parseCfg (j : Json) (n : Nat) : Option (Cfg Rat) := do
   let tiny ← fRat? j "tiny"
   let eps ← fRat? j "eps"
   let nreset ← fNat? j "nreset"
-  some { absdelta, resnorm, tol, atol, miniter, maxiter, raiseNPD := rz, tiny, eps, nreset, size := n }
+  let ord := (fStr? j "norm_ord").getD "2"
+  if ord != "2" && ord != "1" && ord != "inf" then none else
+  some { absdelta, resnorm, tol, atol, miniter, maxiter, raiseNPD := rz, normTwo := ord == "2", resnormSqrt := none,
+         tiny, eps, nreset, size := n }
 
 def runCg (j : Json) : Option Json := do
   let jl ← fRatList? j "j"
@@ -46,11 +49,12 @@ def runCg (j : Json) : Option Json := do
   let c ← parseCfg j sz
   if c.nreset == 0 then none else
   let mat := RVec.matVec m
-  let e : Json := match cgEager c RVec.dot mat jv x0 with
+  let nrm : RVec n → Rat := if (fStr? j "norm_ord").getD "2" == "inf" then RVec.normInf else RVec.norm1
+  let e : Json := match cgEager c RVec.dot nrm mat jv x0 with
     | .ok r => jObj [("x", jRats r.x.toList), ("info", jInt r.info), ("nit", jNat r.nit),
                      ("why", Json.str (whyStr r.why)), ("gamma", jRat r.gamma), ("ediff", jRat r.ediff)]
     | .error k => jObj [("error", Json.str "ValueError"), ("kind", Json.str (errStr k))]
-  let s := cgStatic c RVec.dot mat jv x0
+  let s := cgStatic c RVec.dot nrm mat jv x0
   let sj := jObj [("x", jRats s.pos.toList), ("info", jInt s.info), ("nit", jNat s.it)]
   some (jObj [("eager", e), ("static", sj)])
 
